@@ -269,3 +269,4 @@ def r10_serde_dispatch(ctx):
 RULES.append(r10_serde_dispatch)
 RULES.append(lazy("C04", "r8_undecodable_output", "a value that could not be decoded is not the value sequential evaluation gives"))
 RULES.append(lazy("C16", "r1_projections", "the preschedule records every output of every task: the publish set of a task is taken from it, and completion is inferred from the publication of the task's last output"))
+RULES.append(lazy("C04", "r1_purge_guard", "a requested output is not dropped before its value has reached the caller (else the pending fetch fails and the value is never delivered)"))
